@@ -28,7 +28,7 @@ import time
 VERIF = os.path.dirname(os.path.dirname(os.path.abspath(__file__)))
 REPO = os.environ.get("VERIF_REPO", "/repo")
 TLA_CP = "/opt/veriftools/tla/tla2tools.jar:/opt/veriftools/tla/CommunityModules-deps.jar"
-NCPU = os.cpu_count() or 4
+NCPU = int(os.environ.get("VERIF_WORKERS", os.cpu_count() or 4))  # VERIF_WORKERS caps TLC workers (development only)
 
 
 def canon(x):
@@ -88,6 +88,8 @@ class Ctx:
 
     # ------------------------------------------------------------------ findings
     def _load_findings(self):
+        # known_findings.json is the committed list (assembled by bin/mkmanifest from known_findings.d/*.json);
+        # it is never written at run time.
         p = os.path.join(VERIF, "known_findings.json")
         if not os.path.exists(p):
             return []
@@ -297,7 +299,7 @@ class Ctx:
                     "CGO_LDFLAGS": "-L%s -lwasmjit_stub" % os.path.join(VERIF, "build", "stub")})
         return env
 
-    def go_test_bin(self, pkg, harness=None, tags=(), hide_own_tests=False, name=None, new_pkg=False):
+    def go_test_bin(self, pkg, harness=None, tags=(), hide_own_tests=False, name=None, new_pkg=False, with_=()):
         """Build a test binary of /repo/<pkg> with the files of /verif/harness/<harness or pkg>/ injected
         (go -overlay; files are only ADDED; with hide_own_tests the package's own _test.go files are
         hidden so that TestMain does not clash).  new_pkg: <pkg> does not exist in the repository
@@ -328,13 +330,15 @@ class Ctx:
         bdir = os.path.join(self.scratch, "bin")
         os.makedirs(bdir, exist_ok=True)
         # shared helpers (harness/_common/*.go.tmpl) are instantiated for the harness's package
-        cdir = os.path.join(VERIF, "harness", "_common")
-        for fn in sorted(os.listdir(cdir)):
-            if fn.endswith(".go.tmpl"):
-                gen = os.path.join(bdir, name + "_" + fn[:-5].replace(".go", "") + "_test.go")
-                with open(gen, "w") as f:
-                    f.write(open(os.path.join(cdir, fn)).read().replace("PKGNAME", pkgname))
-                ov[os.path.join(pkgdir, "zz_verif_common_" + fn[:-8] + "_test.go")] = gen
+        # with_=('_ledger',) adds further shared template directories harness/<dir>/*.go.tmpl
+        for cname in ("_common",) + tuple(with_):
+            cdir = os.path.join(VERIF, "harness", cname)
+            for fn in sorted(os.listdir(cdir)):
+                if fn.endswith(".go.tmpl"):
+                    gen = os.path.join(bdir, name + cname + "_" + fn[:-8] + "_test.go")
+                    with open(gen, "w") as f:
+                        f.write(open(os.path.join(cdir, fn)).read().replace("PKGNAME", pkgname))
+                    ov[os.path.join(pkgdir, "zz_verif" + cname + "_" + fn[:-8] + "_test.go")] = gen
         ovp = os.path.join(bdir, name + ".overlay.json")
         with open(ovp, "w") as f:
             json.dump({"Replace": ov}, f)
